@@ -245,8 +245,8 @@ class Constraint:
         self._ast = ast
 
     def get_features(self) -> list[str]:
-        """List of features' names involved in the constraint."""
-        features = set()
+        """List of features' names involved in the constraint (each once, in order of appearance)."""
+        features: dict[str, None] = {}  # insertion-ordered: the order of a set changes from run to run
         stack = [self.ast.root]
         while stack:
             node = stack.pop()
@@ -255,7 +255,7 @@ class Constraint:
             if node.is_unique_term():
                 if (isinstance(node.data, (int, float)) or node.data.startswith("'")):
                     continue
-                features.add(node.data)
+                features[node.data] = None
             elif node.is_unary_op():
                 stack.append(node.left)
             elif node.is_aggregate_op():
